@@ -517,34 +517,53 @@ fn run<F: MathFunction + RenderHints + Clone>(case: &Case, cx: &mut Cx) -> Check
     let mut vals = vec![];
     let mut worst = 0.0f64;
     // Without a transform (the matrix is w * identity), world and model
-    // coordinates coincide and a vertex with two or more coordinates exactly on
-    // the finest octree lattice is an edge intersection (or a cell vertex
-    // snapped to one): the mesher found it between an inside and an outside
-    // sample h / 15^4 apart on that lattice edge, so the 1-Lipschitz field
-    // cannot exceed that distance there.  (Unclamped cell vertices, finding F9,
-    // are not constrained by this.)
+    // coordinates coincide.  An edge intersection is found between an inside
+    // and an outside sample h / 15^4 apart on an edge of the finest lattice, so
+    // the 1-Lipschitz field cannot exceed that distance there.  Edge
+    // intersections are recognised by position AND by role: two or more
+    // coordinates exactly on the finest lattice, and at most 4 neighbours (the
+    // centre of the triangle fan around one octree edge, which has at most 4
+    // adjacent cells).  A cell vertex has at least 6 neighbours (>= 3 crossing
+    // edges, each contributing its intersection and a neighbouring cell
+    // vertex) and is not constrained by this clause: the centre of a collapsed
+    // cell lies on the finest lattice too, and unclamped cell vertices are
+    // finding F9.
     let plain = case.xform.is_none();
     let cells = (1u32 << case.depth) as f32;
     let on_lattice = |c: f32| {
         let k = (c + 1.0) * cells / 2.0;
         k == k.round() && (0.0..=cells).contains(&k)
     };
-    for v in &mesh.vertices {
+    for (vi, v) in mesh.vertices.iter().enumerate() {
         flat.eval_xyz(v.x, v.y, v.z, &mut vals);
         let d = (vals[ri].abs() as f64) / (h * lin);
         if d > worst {
             worst = d;
         }
-        if plain {
-            let k = [v.x, v.y, v.z].iter().filter(|c| on_lattice(**c)).count();
-            if k >= 2 {
-                cx.ev.count("lattice_edge_vertices_checked");
-                ensure!(
-                    d <= 0.02 || !d.is_finite(),
+        if plain && [v.x, v.y, v.z].iter().filter(|c| on_lattice(**c)).count() >= 2 {
+            cx.ev.count("lattice_line_vertices");
+            if d > 0.02 && d.is_finite() {
+                let mut nb: Vec<usize> = vec![];
+                for t in &mesh.triangles {
+                    let idx = [t.x, t.y, t.z];
+                    if idx.contains(&vi) {
+                        for j in idx {
+                            if j != vi && !nb.contains(&j) {
+                                nb.push(j);
+                            }
+                        }
+                    }
+                }
+                if nb.len() > 4 {
+                    cx.ev.count("off_surface_lattice_vertices_that_are_cell_vertices");
+                    continue;
+                }
+                fail!(
                     "intersection-vertex-off-surface",
-                    "vertex {:?} lies on an edge of the depth-{} lattice but the field there is {} = {:.3} cells (edge intersections are located to h / 50625)",
+                    "vertex {:?} lies on an edge of the depth-{} lattice and is the centre of a fan of {} triangles (an edge intersection), but the field there is {} = {:.3} cells (edge intersections are located to h / 50625)",
                     v,
                     case.depth,
+                    nb.len(),
                     vals[ri],
                     d
                 );
